@@ -274,33 +274,113 @@ def rule_Q4(ctx):
 def rule_C1(ctx):
     """detection order: text/cue -> MDF -> MDX -> Roland -> AKAI, on the unwrapped stream"""
     di = ctx.fn(ACT, "determine_image_type", "C1")
-    calls = []
-    for c in own_nodes(di):
-        if isinstance(c, ast.Call) and isinstance(c.func, ast.Name) and c.func.id in (
-                "parse_text_file", "attempt_parse_cue_sheet", "is_mdf_image", "MdfStream", "is_mdx_image", "MdxStream", "is_roland_s7xx_image",
-                "RolandSxxImageParser", "AkaiImageParser", "open"):
-            calls.append(c)
-    calls.sort(key=lambda c: (c.lineno, c.col_offset))
-    order = [c.func.id for c in calls]
-    want = ["parse_text_file", "attempt_parse_cue_sheet", "open", "is_mdf_image", "MdfStream", "is_mdx_image", "MdxStream", "is_roland_s7xx_image", "RolandSxxImageParser", "AkaiImageParser"]
-    ctx.ob("C1", di, "detection cascade order: text probe, cue sheet, raw sectors, MDX wrapper, Roland signature, else AKAI", order == want, f"{order}", inst="order")
-    for c in calls:
-        if c.func.id in ("is_mdf_image", "MdfStream", "is_mdx_image", "MdxStream", "is_roland_s7xx_image", "RolandSxxImageParser", "AkaiImageParser"):
-            ok = len(c.args) == 1 and norm(c.args[0]) == "file_stream"
-            ctx.ob("C1", c, f"{c.func.id} receives the current (unwrapped so far) stream", ok, norm(c), inst=f"arg:{c.func.id}")
-    # wrappers rebind file_stream; mdx only if not mdf
-    ifs = [i for i in own_nodes(di) if isinstance(i, ast.If) and norm(i.test) == "is_mdf_image(file_stream)"]
-    ok = len(ifs) == 1 and norm(ifs[0].body[0]) == "file_stream = MdfStream(file_stream)" and len(ifs[0].orelse) == 1 and isinstance(ifs[0].orelse[0], ast.If) \
-        and norm(ifs[0].orelse[0].test) == "is_mdx_image(file_stream)" and norm(ifs[0].orelse[0].body[0]) == "file_stream = MdxStream(file_stream)"
-    ctx.ob("C1", di, "raw-sector and MDX containers are unwrapped into file_stream before the image type is decided", ok, "", inst="unwrap")
-    ifs = [i for i in own_nodes(di) if isinstance(i, ast.If) and norm(i.test) == "is_roland_s7xx_image(file_stream)"]
-    ok = len(ifs) == 1 and norm(ifs[0].body[0]) == "result = RolandSxxImageParser(file_stream)" and norm(ifs[0].orelse[0]) == "result = AkaiImageParser(file_stream)"
-    ctx.ob("C1", di, "Roland signature selects the Roland parser, otherwise AKAI", ok, "", inst="roland-or-akai")
-    op = [c for c in calls if c.func.id == "open"]
-    ok = len(op) == 1 and [norm(a) for a in op[0].args] == ["file", "'rb'"]
-    ctx.ob("C1", di, "a path is opened read-only binary", ok, "", inst="open-rb")
-    ok = any(isinstance(i, ast.If) and norm(i.test) == "isinstance(file, str)" for i in own_nodes(di))
-    ctx.ob("C1", di, "an already opened stream skips the text probe", ok, "", inst="stream-arg")
+    CASC = ("parse_text_file", "attempt_parse_cue_sheet", "open", "is_mdf_image", "MdfStream", "is_mdx_image", "MdxStream", "is_roland_s7xx_image",
+            "RolandSxxImageParser", "AkaiImageParser")
+    farg = di.args.args[0].arg
+    prs = [p for p in run_paths(ctx, di, include_exc=True, rule="C1", limit=8000) if p.end == "return"]
+    # flags assigned constants in a handler fold to truthy(0)/truthy(1): drop the contradictory combinations
+    prs = [p for p in prs if not any((c == "truthy(0)" and t) or (c == "truthy(1)" and not t) for c, t, _ in p.conds)]
+    if not prs:
+        raise AnalysisError("C1", where(di), "no return path")
+
+    def truth_of(p, name):
+        """(truth, argument key) of the test `name(arg)` on path p, or None"""
+        for c, t, _ in p.conds:
+            neg = False
+            x = c
+            while x.startswith("not(") and x.endswith(")"):
+                x, neg = x[4:-1], not neg
+            if x.startswith(f"truthy({name}(") and x.endswith("))"):
+                return (t != neg), x[len(f"truthy({name}("):-2]
+        return None
+
+    seen = set()
+    for p in prs:
+        seq = []
+        for c, e, st in calls_on(p):
+            if isinstance(c.func, ast.Name) and c.func.id in CASC:
+                ev = evaluator(ctx, di, e)
+                seq.append((c.func.id, [ev.ev(a).key() for a in c.args], ev.ev(c).key(), c))
+        names = [x[0] for x in seq]
+        st_ = truth_of(p, "isinstance")
+        is_str = st_[0] if st_ is not None and st_[1] == f"{farg},str" else None
+        handlers = [set(handler_names(s_.ast)) for s_ in p.steps if s_.kind == "except"]
+        via_badtext = any("BadTextFile" in h for h in handlers)
+        via_badcue = any("BadCueSheet" in h for h in handlers)
+        ret = p.ret.key() if p.ret is not None else "None"
+        ok, det = True, ""
+        pre = []
+        if is_str is None:
+            ok, det = False, f"the path (lines {p.lines()[:6]}..) does not branch on isinstance({farg}, str)"
+        elif not is_str:
+            F0 = farg
+            if any(n in ("parse_text_file", "attempt_parse_cue_sheet", "open") for n in names):
+                ok, det = False, "an already opened stream is probed as a text file / re-opened"
+        else:
+            F0 = f"open({farg},'rb')"
+            cue = f"attempt_parse_cue_sheet(parse_text_file({farg}),os.path.dirname({farg}))"
+            if not names or seq[0][0] != "parse_text_file" or seq[0][1] != [farg]:
+                ok, det = False, "a path argument is not probed as a text file first"
+            elif via_badtext:
+                pre = ["parse_text_file"]
+                if "attempt_parse_cue_sheet" in names:
+                    ok, det = False, "a file that is not text is still handed to the cue-sheet parser"
+            else:
+                pre = ["parse_text_file", "attempt_parse_cue_sheet"]
+                if names[:2] != pre or seq[1][2] != cue:
+                    ok, det = False, f"text file: the cue-sheet attempt is not attempt_parse_cue_sheet(lines, dirname({farg})): {seq[1][2] if len(seq) > 1 else names}"
+                elif ret == cue:
+                    if len(names) != 2:
+                        ok, det = False, "calls after the cue-sheet result was obtained"
+                    key = "cue-result"
+                    if key not in seen:
+                        seen.add(key)
+                        ctx.ob("C1", p.ret_node, "a text file that parses as a cue sheet is answered by the cue-sheet path", ok, det, inst="cascade:cue")
+                    continue
+                elif not via_badcue:
+                    ok, det = False, "the cue-sheet result is dropped without a BadCueSheet"
+            if ok:
+                rest = seq[len(pre):]
+                if not rest or rest[0][0] != "open" or rest[0][2] != F0:
+                    ok, det = False, f"the image file is not opened as open({farg}, 'rb') after the text probe: {rest[0][2] if rest else '-'}"
+                pre = pre + ["open"]
+        if ok:
+            rest = seq[len(pre):]
+            want = [("is_mdf_image", F0)]
+            mdf = truth_of(p, "is_mdf_image")
+            mdx = truth_of(p, "is_mdx_image")
+            F1 = F0
+            if mdf is None or mdf[1] != F0:
+                ok, det = False, "raw-sector probe missing or not on the opened stream"
+            elif mdf[0]:
+                want.append(("MdfStream", F0))
+                F1 = f"MdfStream({F0})"
+            else:
+                want.append(("is_mdx_image", F0))
+                if mdx is None or mdx[1] != F0:
+                    ok, det = False, "MDX probe missing or not on the opened stream"
+                elif mdx[0]:
+                    want.append(("MdxStream", F0))
+                    F1 = f"MdxStream({F0})"
+            if ok:
+                want.append(("is_roland_s7xx_image", F1))
+                rol = truth_of(p, "is_roland_s7xx_image")
+                if rol is None or rol[1] != F1:
+                    ok, det = False, f"the Roland signature is not tested on the unwrapped stream `{F1}`"
+                else:
+                    parser = "RolandSxxImageParser" if rol[0] else "AkaiImageParser"
+                    want.append((parser, F1))
+                    got = [(n, a[0] if a else "") for n, a, k, c in rest]
+                    if got != want:
+                        ok, det = False, f"cascade on this path is {got}, expected {want}"
+                    elif ret != f"{parser}({F1})":
+                        ok, det = False, f"returns `{ret}`, expected {parser}({F1})"
+        sig = f"{is_str}:{via_badtext}:{via_badcue}:" + ":".join(str(truth_of(p, n)[0]) if truth_of(p, n) else "-" for n in ("is_mdf_image", "is_mdx_image", "is_roland_s7xx_image"))
+        if sig in seen and ok:
+            continue
+        seen.add(sig)
+        ctx.ob("C1", p.ret_node or di, "detection cascade: text probe, cue sheet, raw sectors else MDX wrapper (unwrapped), Roland signature on the unwrapped stream, else AKAI", ok, det,
+               inst=f"cascade:{sig}")
     # MDF / MDX signatures
     mh = ctx.prog.assigned("smpl_extract/alcohol/mdf.py", "MDF_SECTOR_HEADER_MAGIC", "C1")
     v = ctx.const("smpl_extract/alcohol/mdf.py", "MDF_SECTOR_HEADER_MAGIC", "C1")
